@@ -3,7 +3,7 @@ From Coq Require Import List Arith.
 Import ListNotations.
 From Exmex.Model Require Import Base EvalBinary Lexer Flat Deep Convert.
 From Exmex.Spec Require Import RefSem.
-From Exmex.Proofs Require Import DeepSem DeepSubs C11Main DeepParse C03Main DeepOps Unparse UnparseParsed UokOps.
+From Exmex.Proofs Require Import DeepSem DeepSubs C11Main DeepParse C03Main DeepOps Unparse UnparseParsed UokOps ParseAny.
 Open Scope nat_scope.
 
 (* `_partial`: a flat expression obtained by parsing prints exactly the text it was parsed from (for every text,
@@ -93,6 +93,22 @@ Proof.
   intros D C tb. split; [exact (operate_bin_uok C tb)|]. split; [exact (operate_unary_uok C tb)|exact (subs_uok C tb)].
 Qed.
 
+(* 4b. ALL premises of 4 hold for every deep expression parsed from ANY accepted token list (also sloppy input, also after
+   constant folding, which removes numbers only): it prints the text of its tokens, and parsing these tokens gives an
+   expression with the same variable list and, at every assignment, the same value *)
+Theorem C12_every_parsed_expression_prints_and_parses_back :
+  forall (D : Type) (C : carrier D) (tb : optable) (R : D -> D -> Prop),
+  (forall a, R a a) -> (forall a b, R a b -> R b a) -> (forall a b c, R a b -> R b c -> R a c) ->
+  (forall k a a' b b', R a a' -> R b b' -> R (binf C k a b) (binf C k a' b')) ->
+  (forall k a a', R a a' -> R (unf C k a) (unf C k a')) ->
+  (forall o, comm_of tb o = true -> forall a b c, R (binf C o (binf C o a b) c) (binf C o a (binf C o b c))) ->
+  forall (ts : list (token D)) (e : deepex D), parse_deep_tokens C tb ts = Ok e ->
+  unparse C tb e = Some (render C tb (utoks e)) /\
+  exists e', parse_deep_tokens C tb (utoks e) = Ok e' /\ dvars e' = dvars e /\
+    forall vals, length vals = length (dvars e) ->
+    exists v v', eval_deep C e vals = Ok v /\ eval_deep C e' vals = Ok v' /\ R v' v.
+Proof. exact @parsed_any_round_trip. Qed.
+
 (* 5. a flat expression made from a deep one prints what the deep one prints *)
 Theorem C12_flat_from_deep_prints_the_deep_text :
   forall (D : Type) (C : carrier D) (tb : optable) (fb : bool) (e : deepex D) (fx : flatex D),
@@ -108,5 +124,6 @@ Print Assumptions C12_deep_unparse_is_the_text_of_its_tokens.
 Print Assumptions C12_printed_tokens_parse_back.
 Print Assumptions C12_printed_tokens_parse_back_to_the_same_expression.
 Print Assumptions C12_parsed_expressions_record_unary_operators.
+Print Assumptions C12_every_parsed_expression_prints_and_parses_back.
 Print Assumptions C12_flat_from_deep_prints_the_deep_text.
 Print Assumptions C12_derived_expressions_meet_the_premises.
